@@ -1,4 +1,5 @@
 import Ark.Props.C15
+import Ark.Props.C15Src
 
 #print axioms Ark.Props.C15.shrink_decides_as_in_source
 #print axioms Ark.Props.C15.canShrink_decides_as_in_source
@@ -31,3 +32,6 @@ import Ark.Props.C15
 #print axioms Ark.Props.C15.src_freeTable
 #print axioms Ark.Props.C15.src_removeTableRelations
 #print axioms Ark.Props.C15.src_getFreeTable
+#print axioms Ark.Props.C15Src.src_shrink_stops_only_after_work
+#print axioms Ark.Props.C15Src.src_shrink_zero_limit
+#print axioms Ark.Props.C15Src.src_shrink_positive_limit
